@@ -487,12 +487,20 @@ class Engine(object):
         if isinstance(e, ast.JoinedStr):
             raise Unsupported("f-string")
         if isinstance(e, ast.Tuple) or isinstance(e, ast.List):
-            if any(isinstance(x, ast.Starred) for x in e.elts):
+            if any(isinstance(x, ast.Starred) for x in e.elts) and not isinstance(e, ast.Tuple):
                 raise Unsupported("starred display")
             outs = []
-            for s, vs in self.eval_seq(e.elts, st):
+            for s, vs in self.eval_seq([x.value if isinstance(x, ast.Starred) else x for x in e.elts], st):
                 if isinstance(e, ast.Tuple):
-                    outs.append((s, VTuple(vs)))
+                    flat = []
+                    for x, v in zip(e.elts, vs):
+                        if isinstance(x, ast.Starred):
+                            if not isinstance(v, VTuple):
+                                raise Unsupported("starred non-tuple in a tuple display")
+                            flat.extend(v.items)
+                        else:
+                            flat.append(v)
+                    outs.append((s, VTuple(flat)))
                 else:
                     lo = ListObj.empty()
                     for v in vs:
@@ -583,7 +591,7 @@ class Engine(object):
             qual = "%s:%s" % (mod, qn)
             if qual in self.contracts:
                 return VContractFn(qual)
-            if obj in (len, all, any, tuple, list, dict, filter, map, enumerate, isinstance, range, abs, bool, str, int, min, max, slice, frozenset, set):
+            if obj in (len, all, any, tuple, list, dict, filter, map, enumerate, isinstance, range, abs, bool, str, int, min, max, slice, frozenset, set, type, float, complex):
                 return VBuiltin(obj.__name__)
             if mod == "collections" and qn == "deque":
                 return VBuiltin("deque")
@@ -1174,6 +1182,24 @@ class Engine(object):
                 outs = nxt
             self.assumptions.add("stdlib idiom spec: a, b = map(f, (x, y)) == a, b = f(x), f(y)")
             return [(s2, VTuple(vs)) for s2, vs in outs]
+        if name == "type" and len(args) == 1 and isinstance(args[0], VNone):
+            return [(st, VPy(type(None), "NoneType"))]
+        if name == "isinstance" and len(args) == 2 and isinstance(args[0], (VStr, VInt, VBool, VNone)):
+            cls = args[1].items if isinstance(args[1], VTuple) else [args[1]]
+            tys = []
+            for c in cls:
+                if isinstance(c, VBuiltin) and c.name in ("str", "int", "float", "complex", "bool", "list", "tuple", "dict", "set", "frozenset", "bytes"):
+                    tys.append(getattr(builtins, c.name))
+                elif isinstance(c, VPy) and isinstance(c.obj, type):
+                    tys.append(c.obj)
+                elif isinstance(c, (VPyFunc, VCtor)) and isinstance(getattr(c, "obj", None), type):
+                    tys.append(c.obj)
+                else:
+                    tys = None
+                    break
+            if tys is not None:
+                py = {VStr: str, VInt: int, VBool: bool, VNone: type(None)}[type(args[0])]
+                return [(st, VBool(any(issubclass(py, t) for t in tys)))]
         if name == "isinstance":
             self.abstracted.add("abstracted: isinstance(...)")
             return [(st, VBool(fresh("isinstance", B)))]
